@@ -11,6 +11,9 @@
     of the model. *)
 From Drummer.Model Require Import Base KVCodec KVSM.
 
+(* [n] copies of byte [b]: long keys and values (4 KB .. MBs) are written run-length compressed in the cases files *)
+Definition brep (n b : N) : bytes := repeat b (N.to_nat n).
+
 Inductive xobs := XNone | XVal (v : bytes) | XCls (c : N) | XIdx (i : N) | XPanic.
 
 Definition xobs_eqb (a b : xobs) : bool :=
